@@ -69,6 +69,22 @@ def c02(case):
                 t = pytrs.Tract(text, config=cfg)
                 t.parse(qq_depth_min=dmin, break_halves=bh)
             qqs = t.qqs
+        elif ch == "mixed_plss":
+            # the same through a description: the related setting configured, the keyword given to PLSSDesc.parse(),
+            # which hands the settings of that call down to its tracts
+            if qd is not None:
+                cfg = "qq_depth_min.%d,qq_depth_max.%d" % ((qd % 3) + 1, (qd % 3) + 2)
+                kw = {"qq_depth": qd}
+            else:
+                cfg = "qq_depth.%d" % ((dmin % 3) + 1)
+                kw = {"qq_depth_min": dmin}
+                if dmax:
+                    kw["qq_depth_max"] = dmax
+            d = pytrs.PLSSDesc("T154N-R97W Sec 14: " + text, config=cfg)
+            d.parse(parse_qq=True, break_halves=bh, **kw)
+            if len(d.tracts) != 1:
+                return {"exc": "none", "qqs": None, "note": "plss wrapper gave %d tracts" % len(d.tracts)}
+            qqs = d.tracts[0].qqs
         elif ch == "kw":
             t = pytrs.Tract(text)
             kw = {"break_halves": bh}
@@ -123,6 +139,15 @@ def c05(case):
             on_tracts = all(("nonsequential_sections" in t.w_flags) == nonseq for t in d.tracts)
             return {"exc": "none", "obs": [secs], "nonseq": nonseq and on_tracts, "shared": shared,
                     "raw": [(t.trs, t.desc) for t in d.tracts]}
+        if flavour == "div_lots":
+            t = pytrs.Tract(text, parse_qq=True)
+            lots = []
+            for x in t.lots:
+                m = re.fullmatch(r"(?:[NSEW2]+ of )?L(\d+)", x)
+                lots.append(int(m.group(1)) if m else -1)
+            ilots = [x if isinstance(x, int) else -1 for x in t.ilots]
+            nonseq = any(f == "nonsequential_lots" for f in t.w_flags)
+            return {"exc": "none", "obs": [lots, ilots], "nonseq": nonseq, "shared": True, "raw": list(t.lots)}
         if flavour == "ctx_lots":
             t = pytrs.Tract(text, parse_qq=True)
             lots = [_lot_int(x) for x in t.lots]
@@ -523,6 +548,11 @@ def plss_entry(case):
             n = len(tl)
         elif a["entry"] == "tract_init":
             t = pytrs.Tract(a["text"], config=a.get("config"), parse_qq=True)
+            n = 1
+        elif a["entry"] == "tract_build":
+            # the alternative constructor: Twp, Rge and Sec as separate components (ints, strings, or left out)
+            t = pytrs.Tract.from_twprgesec(a["text"], *a.get("components", ()), config=a.get("config"), parse_qq=True)
+            t.set_twprgesec(*(a.get("components2") or (154, 97, 14)))
             n = 1
         else:
             t = pytrs.Tract(a["text"], config=a.get("config"))
@@ -1507,6 +1537,11 @@ def _c06_obs(text, suppress, table, seq=False, cfgx=None):
     if cfgx:
         # the same depth settings for the whole and for every part
         t = pytrs.Tract(text, parse_qq=True, config=",".join(x for x in ("suppress_lot_divs" if suppress else None, cfgx) if x))
+    elif seq == "bulk":
+        # the same final settings through the bulk entry point: the tract is configured with the opposite value, the
+        # keyword of TractList.parse_tracts() (an explicit True / False) takes priority
+        t = pytrs.Tract(text, config="suppress_lot_divs.%s" % (not suppress))
+        pytrs.TractList([t]).parse_tracts(suppress_lot_divs=suppress)
     elif seq:
         # the same final settings reached through a history: committed parse under the opposite setting, an
         # uncommitted parse under other settings, then the committed parse that is observed
@@ -1529,7 +1564,7 @@ def c06(case):
     a = case["args"]
     table = {}
     try:
-        whole = _c06_obs(a["text"], a["suppress"], table, seq=bool(a.get("seq")), cfgx=a.get("cfgx"))
+        whole = _c06_obs(a["text"], a["suppress"], table, seq=a.get("seq"), cfgx=a.get("cfgx"))
         parts = []
         for el in a["elements"]:
             p = _c06_obs(el["text"], a["suppress"], table, cfgx=a.get("cfgx"))
